@@ -3,7 +3,9 @@
 From S4.Base Require Import Bytes Chunk.
 From S4.Spec Require Import LinesSpec.
 From S4.Model Require Import Lines Syslines.
-From S4.Proofs Require Import LinesProofs SyslinesProofs.
+From S4.Gen Require Import BlockConsts.
+From S4.Model Require Import Gate.
+From S4.Proofs Require Import LinesProofs SyslinesProofs GateRefuted.
 Open Scope N_scope.
 
 (* reader_core_bs_independent: for any two block sizes the observable results of find_line,
@@ -44,3 +46,30 @@ Theorem helpers_bounded : forall fo filesz bs, 0 < bs -> fo <= filesz ->
   count_blocks filesz bs * bs < filesz + bs.
 Proof. exact Chunk.helpers_bounded. Qed.
 Print Assumptions helpers_bounded.
+
+(* The acceptance gate of the CURRENT code (Model/Gate.v, thresholds regenerated from the
+   source) is NOT independent of the block size: refuted for permitted sizes *)
+Theorem gate_refuted : exists (dated : list N -> option Z) (f : file) (bs : N),
+  64 <= bs /\ bs <= blocksz_max /\ gate dated bs f <> gate dated blocksz_def f.
+Proof. exact GateRefuted.gate_refuted. Qed.
+Print Assumptions gate_refuted.
+
+(* F3a: five 121-byte lines dated at column 0 — rejected at 64, accepted at 128 and at the default *)
+Theorem gate_refuted_F3a :
+  64 <= 64 /\ gate dated_w 64 file_f3a = FileErrNoSyslinesFound /\ gate dated_w 128 file_f3a = FileOk /\
+  gate dated_w blocksz_def file_f3a = FileOk.
+Proof. exact GateRefuted.gate_refuted_F3a. Qed.
+Print Assumptions gate_refuted_F3a.
+
+(* F3b: a 100-byte undated first line *)
+Theorem gate_refuted_F3b :
+  gate dated_w 64 file_f3b = FileErrNoSyslinesFound /\ gate dated_w 128 file_f3b = FileOk /\
+  gate dated_w blocksz_def file_f3b = FileOk.
+Proof. exact GateRefuted.gate_refuted_F3b. Qed.
+Print Assumptions gate_refuted_F3b.
+
+(* F3c: two 4050-byte dated lines — accepted at 4096, rejected at the default *)
+Theorem gate_refuted_F3c :
+  gate dated_w 4096 file_f3c = FileOk /\ gate dated_w blocksz_def file_f3c = FileErrNoLinesFound.
+Proof. exact GateRefuted.gate_refuted_F3c. Qed.
+Print Assumptions gate_refuted_F3c.
